@@ -305,7 +305,7 @@ func (g *tgen) indexes(n int) []int {
 	}
 	for len(out) < n {
 		var i int
-		switch weighted(g.t, "ixc", 300, 90, 30, 1) {
+		switch weighted(g.t, "ixc", 1500, 450, 150, 1) {
 		case 0:
 			i = rapid.IntRange(lo, 15).Draw(g.t, "ix")
 		case 1:
@@ -315,7 +315,7 @@ func (g *tgen) indexes(n int) []int {
 		default:
 			// rarely a very large index (3- and 4-byte tags; implementations may switch
 			// representation for sparse index spaces). The field table costs 24 bytes per index.
-			i = pick(g.t, "ixbig", []int{65535, 65536, 100000, 262143, 262144})
+			i = pick(g.t, "ixbig", []int{8191, 8192, 65535, 65536, 70000})
 		}
 		for seen[i] {
 			i++
